@@ -654,6 +654,8 @@ def key_of(family, detail, S, groups):
         nt = nxt[0][2][-1].split("=")[0] if nxt else "END"
         return "trivia:%s:%s|%s" % (detail, pt, nt)
     if family == "paren":
+        if len(new) >= 180 and set(new) <= set("()"):
+            return "paren-depth:parser-stack"       # deeper than bison's fixed stack of 200 entries (the stacks cannot grow: see DESIGN 9.3)
         kinds = [sp[3] for sp in S.spans if sp[0] == b and sp[1] == s]
         return "paren:%s" % (kinds[0] if kinds else "?")
     if family == "alias":
@@ -743,6 +745,7 @@ def metamorphic(ctx, M, prepared, tables):
     lits = set(literal_strings(tables))
     items = []
     exception_hits = {}
+    paren_deep_done = [None]
     for (S, base, base_raw) in prepared:
         m = S.m
         # ---- trivia: every applicable boundary at once, per trivia kind; plus random single sites ----------------
@@ -780,6 +783,15 @@ def metamorphic(ctx, M, prepared, tables):
             if thorough:
                 for g in pg:
                     items.append((S, base, "paren", "single", [g], None, base_raw))
+            # one expression wrapped in MANY pairs: redundant at any depth (up to the parser's fixed stack, 200 entries)
+            for depth in ((40, 120, 250) if not thorough else (40, 80, 120, 150, 250)):
+                if depth == 250:
+                    if paren_deep_done[0] is not None or not base_raw or "errors=0" not in " ".join(base_raw[:2]):
+                        continue      # the witness of the known depth limit: once per run, on an accepted model
+                    paren_deep_done[0] = S
+                g = rng.choice(pg)
+                deep = [(g[0][0], g[0][1], g[0][2], "(" * depth, g[0][4]), (g[1][0], g[1][1], g[1][2], ")" * depth, g[1][4])]
+                items.append((S, base, "paren", "deep-%d" % depth, [deep], None, base_raw))
         # ---- aliases ----------------------------------------------------------------------------------------------
         for direction in ("fwd", "bwd"):
             ag = gen_alias_edits(S, direction)
